@@ -534,8 +534,11 @@ def hunt5_rules(chk, repo):
     if d_next:
         loopn = next((l for l in prog.enclosing(d_next[0].ast, (ast.For,))), None)
         lv = {x.id for x in ast.walk(loopn.target) if isinstance(x, ast.Name)} if loopn is not None else set()
-        last_iteration = K.last_iteration_edges(gd, lv, d_rel, d_next)
-        p3 = K.find_path_edges(gd, d_next, lambda n: n in d_next, lambda n: n in tests, last_iteration, EXPLICIT)
+        vals = K.repeating_values(loopn) if loopn is not None else None
+        p3 = None
+        for v in (vals if vals is not None else [None]):
+            edge = K.iteration_edges(loopn, v) if v is not None else (lambda a, b, k: False)
+            p3 = p3 or K.find_path_edges(gd, d_next, lambda n: n in d_next, lambda n: n in tests, edge, EXPLICIT)
         if tests and p3 is None:
             chk.ok("C02.retry.consumed", tests[0].ast, "DigestAuthMiddleware: the retry is attempted only when the request body has not been consumed (the 401 is returned otherwise)")
         else:
